@@ -295,7 +295,7 @@ fn stages(raw: &Project) -> Vec<(&'static str, Project)> {
 }
 
 pub fn gen(out: &mut Out, _sub: &str) {
-    let nfun = out.size(260, 4000);
+    let nfun = out.size(200, 5000);
     let seed = out.seed;
     let mut removed_total = 0u64;
     let mut defs_total = 0u64;
